@@ -276,6 +276,13 @@ func builtinStringReplace(call FunctionCall) Value {
 		search = regexp.MustCompile(regexp.QuoteMeta(searchValue.string()))
 	}
 
+	replaceValue := call.Argument(1)
+	var replaceString []byte
+	if !replaceValue.isCallable() {
+		// 15.5.4.11: a replaceValue that is not a function is converted once, match or no match.
+		replaceString = []byte(replaceValue.string())
+	}
+
 	found := search.FindAllSubmatchIndex(target, find)
 	if global && searchObject != nil {
 		// The global search of 15.5.4.10 ends with a failed exec, which leaves lastIndex at 0.
@@ -287,7 +294,6 @@ func builtinStringReplace(call FunctionCall) Value {
 
 	lastIndex := 0
 	result := []byte{}
-	replaceValue := call.Argument(1)
 	if replaceValue.isCallable() {
 		target := string(target)
 		replace := replaceValue.object()
@@ -314,9 +320,8 @@ func builtinStringReplace(call FunctionCall) Value {
 			lastIndex = match[1]
 		}
 	} else {
-		replace := []byte(replaceValue.string())
 		for _, match := range found {
-			result = builtinStringFindAndReplaceString(result, lastIndex, match, target, replace)
+			result = builtinStringFindAndReplaceString(result, lastIndex, match, target, replaceString)
 			lastIndex = match[1]
 		}
 	}
